@@ -805,6 +805,8 @@ class NF:
                 i, m_ = mx[0]
                 hi = args[1 - i]
                 return self._mkcall("clip", list(m_["args"]) + [hi], {}, fdeps, fg, nondiff)
+        if fname in ("min", "max") and len(args) == 1 and not kws and args[0].elems is not None and len(args[0].elems) >= 2:
+            args = list(args[0].elems)     # builtin min((a, b)) == min(a, b)
         if short_ in ("min", "max", "minimum", "maximum") and len(args) >= 2 and not kws:
             args = sorted(args, key=lambda a: a.canon())   # commutative: one canonical argument order
         txt = ", ".join([a.canon() for a in args] + [f"{k}={v.canon()}" for k, v in sorted(kws.items())])
